@@ -8,7 +8,7 @@
 From Coq Require Import String.
 From Coq Require Import List NArith ZArith Bool Lia Permutation.
 From Coq Require Import Init.Byte.
-From FFS Require Import Base.Res Base.Bytes Rpc.Body Rpc.WfModel Rpc.WfSpec Rpc.WfProofs Rpc.WfProofs2 Rpc.WfProofs3.
+From FFS Require Import Base.Res Base.Bytes Rpc.Body Rpc.WfModel Rpc.WfSpec Rpc.WfProofs Rpc.WfProofs2 Rpc.WfProofs3 Rpc.WfProofs4.
 From FFS Require Rpc.Json Rpc.Model.
 From FFS Require Import Rpc.WfProofsC09.
 Import ListNotations.
@@ -158,6 +158,51 @@ Theorem C16_sniff_any_whitespace :
 Proof. exact sniff_any_whitespace. Qed.
 Print Assumptions C16_sniff_any_whitespace.
 
+(* 8. (round 3) Every response object carries the id of the request it answers (WfProofs4.id_echo_reply):
+      the reply to a single request echoes its id; in a batch, slot i carries the id of member i (null for a
+      null member or a member without id) whatever the completion order of the member goroutines; a single
+      reply that does not answer a decoded request carries the literal id 1 (replyRPCParseError).  The only
+      hypothesis on the backend client is what SyncRequest documents -- it restores the id of the request it
+      was given ([sync_echo]); nothing is assumed about CallRPC, the wallet or the decoders. *)
+Theorem C16_id_echo :
+  forall (W F : Type)
+         (sync_request : W -> request -> (option response * bool) * W)
+         (call_nonce : W -> F -> option rpc_error * W)
+         (get_accounts : W -> option (list bytes) * W)
+         (sign : W -> txn_view F -> option bytes * W)
+         (decode_txn : option jv -> option (txn_view F))
+         (parse_from : F -> bool)
+         (sched : W -> nat -> list nat),
+    sync_echo sync_request ->
+    (forall w n, Permutation (sched w n) (seq 0 n)) ->
+    forall (w : W) (body : bytes) (v : verdict),
+    exists rep w',
+      rpcHandler W F sync_request call_nonce get_accounts sign decode_txn parse_from sched w body v = Ok (rep, w') /\
+      id_echo_reply body v rep.
+Proof. exact rpcHandler_answers_id_echo. Qed.
+Print Assumptions C16_id_echo.
+
+(* 9. (round 3) ... and so does every reply of every finite history served by one process: the hypotheses
+      mention no handler state and the world state is threaded and universally quantified, so nothing a
+      request does can make a later reply carry a foreign id. *)
+Theorem C16_history_id_echo :
+  forall (W F : Type)
+         (sync_request : W -> request -> (option response * bool) * W)
+         (call_nonce : W -> F -> option rpc_error * W)
+         (get_accounts : W -> option (list bytes) * W)
+         (sign : W -> txn_view F -> option bytes * W)
+         (decode_txn : option jv -> option (txn_view F))
+         (parse_from : F -> bool)
+         (sched : W -> nat -> list nat),
+    sync_echo sync_request ->
+    (forall w n, Permutation (sched w n) (seq 0 n)) ->
+    forall (h : list (bytes * verdict)) (w : W),
+    exists reps w',
+      serve W F sync_request call_nonce get_accounts sign decode_txn parse_from sched w h = Ok (reps, w') /\
+      Forall2 (fun bv rep => id_echo_reply (fst bv) (snd bv) rep) h reps.
+Proof. exact serve_history_ids. Qed.
+Print Assumptions C16_history_id_echo.
+
 (* ---- non-vacuity ---- *)
 Definition ex_sync (w : unit) (q : request) : (option response * bool) * unit :=
   ((Some (mkResp v2_0 (q_id q) (Some (JStr (ascii_bytes "0xabc"))) None), false), tt).
@@ -237,3 +282,31 @@ Example C16_never_null_concrete_nonvacuous :
     (Some (Json.mkReq [] (Some (Json.JNum (ascii_bytes "7"))) (ascii_bytes "eth_sendTransaction")
                       [Json.JObj [(ascii_bytes "from", Json.JStr (ascii_bytes "0x00000000000000000000000000000000000000aa"))]])) = false.
 Proof. split; vm_compute; reflexivity. Qed.
+
+(* id echo: [ex_sync] restores the id; a batch of three members with different ids (the last one null),
+   completed in reverse order, is answered slot by slot with those ids *)
+Definition ex_obj_id (id method : string) : jv :=
+  JObj [(ascii_bytes "id", JStr (ascii_bytes id)); (ascii_bytes "method", JStr (ascii_bytes method))].
+Example C16_id_echo_nonvacuous :
+  sync_echo ex_sync /\
+  let v := Tree (JArr [ex_obj_id "a" "eth_call"; ex_obj_id "b" "eth_accounts"; JNull]) in
+  exists r1 r2 r3 st,
+    ex_handler tt (ascii_bytes "[x]") v = Ok (mkReply st (PBatch [Some r1; Some r2; Some r3]), tt) /\
+    r_id r1 = Some (JStr (ascii_bytes "a")) /\ r_id r2 = Some (JStr (ascii_bytes "b")) /\ r_id r3 = None.
+Proof.
+  split; [intros w q r H; injection H as <-; reflexivity|].
+  eexists _, _, _, _. split; [vm_compute; reflexivity|]. repeat split.
+Qed.
+
+(* history id echo: the three-body history of C16_history_nonvacuous (garbage, [null], a request with id 7):
+   literal id 1, a null id in the slot of the null member, then the request's own id *)
+Example C16_history_id_echo_nonvacuous :
+  exists r1 r2 r3 s1 s2 s3,
+    serve unit unit ex_sync (fun w _ => (None, w)) (fun w => (Some [ascii_bytes "0x01"], w)) (fun w _ => (None, w))
+          (fun _ => None) (fun _ => false) (fun _ n => rev (seq 0 n)) tt
+          [(ascii_bytes "\x00garbage", SyntaxError);
+           (ascii_bytes "[null]", Tree (JArr [JNull]));
+           (ascii_bytes "{}", Tree (ex_obj "eth_accounts"))]
+    = Ok ([mkReply s1 (PSingle (Some r1)); mkReply s2 (PBatch [Some r2]); mkReply s3 (PSingle (Some r3))], tt) /\
+    r_id r1 = Some (JNum (ascii_bytes "1")) /\ r_id r2 = None /\ r_id r3 = Some (JNum (ascii_bytes "7")).
+Proof. eexists _, _, _, _, _, _. split; [vm_compute; reflexivity|]. repeat split. Qed.
